@@ -79,6 +79,15 @@ def _safe_unicode(s: Any) -> str:
         return repr(s)
 
 
+def _safe_repr(obj: Any) -> str:
+    # repr() runs arbitrary user code (e.g. the __repr__ of a log argument),
+    # which must not be able to make the formatter itself fail.
+    try:
+        return repr(obj)
+    except Exception:
+        return "<unprintable %s object>" % type(obj).__name__
+
+
 class LogFormatter(logging.Formatter):
     """Log formatter used in Tornado.
 
@@ -188,7 +197,10 @@ class LogFormatter(logging.Formatter):
             # byte strings wherever possible).
             record.message = _safe_unicode(message)
         except Exception as e:
-            record.message = f"Bad message ({e!r}): {record.__dict__!r}"
+            record.message = "Bad message ({}): {}".format(
+                _safe_repr(e),
+                _safe_repr(record.__dict__),
+            )
 
         record.asctime = self.formatTime(record, cast(str, self.datefmt))
 
